@@ -86,6 +86,10 @@ def run(chk, replay=None):
     jobs = []
     for g, bx in zip(progs, base):
         if not bx.startswith("(ok"):
+            # the family is well typed by construction (typing rules of the book): its members must be accepted as written
+            chk.violation({"class": "well-typed-rejected", "what": "%s || %s" % (bx[:120], g.text[:300])},
+                          {"cmd": "core", "line": "(commit %s %s 0)" % (quote(g.text), corelib.bindings_sx([(n, v) for (n, _, v) in g.params])), "program": g.text, "implementation": bx[:600],
+                           "broken": "a well-typed generated program is rejected as written (identifier choice / layout / parenthesisation must not matter)"})
             continue
         r = chk.sub_rng("ren/" + g.label)
         args = [(n, v) for (n, _, v) in g.params]
@@ -104,6 +108,8 @@ def run(chk, replay=None):
             nargs = [(m.get(n, n), v) for n, v in args]
             jobs.append((g, role, text, nargs, bx, str(m)[:200]))
         jobs.append((g, "layout", layout.relayout(r, g.text, crlf=r.random() < 0.3), args, bx, ""))
+        if "match(" in g.text or "match (" in g.text:
+            jobs.append((g, "layout", g.text.replace("match(", "match\t(").replace("match (", "match("), args, bx, "blank between match and a parenthesised scrutinee"))
         if g.aliases:
             text = g.text
             for n, ty in g.aliases:
